@@ -435,7 +435,9 @@ func discharge(ex *Exec, o *Obligation, pool, pool2 *SolverPool, timeout int, du
 		}
 	}
 	// reachability twin for assertions that were discharged
-	if o.Kind == "assert" && or.Status == "unsat" {
+	if o.Kind == "assert" && or.Status == "unsat" && o.Bad == o.Guard {
+		or.Reach = "n/a (assert false: unsat means the guarded situation cannot occur)"
+	} else if o.Kind == "assert" && or.Status == "unsat" {
 		tsMu.Lock()
 		s2, _, _ := EmitQuery(append(append([]*Term(nil), o.Assumps...), o.Guard), ex.axioms)
 		tsMu.Unlock()
